@@ -205,7 +205,7 @@ pub fn run(run: &mut Run) {
             run.extra.insert("state_cap_reached_at_depth".into(), json!(depth));
             break;
         }
-        if run.elapsed() > if thorough { 1500.0 } else { 60.0 } {
+        if run.elapsed() > if thorough { 3000.0 } else { 600.0 } {
             run.cap_hit = Some(format!("wall clock at BFS depth {}", depth));
             break;
         }
